@@ -109,6 +109,7 @@ class Engine(MemMixin, OpsMixin, ExecMixin):
         self.mute = 0
         self.unmodelled = Counter()
         self.assumed_total = Counter()
+        self.aborted = Counter()
         self.notes = []
         self.boolint = {}
         self.stats = Counter()
